@@ -47,7 +47,13 @@ func vDiagram(a, b int) bool {
 
 type vEv struct{ inst, st int }
 
-func vRunScript(script []vEv, ninst int) []vEv {
+func vRunScript(script []vEv, ninst int) []vEv { return vRunScriptF(script, ninst, nil) }
+
+// vRunScriptF: faults[k % len] says whether the watcher FAULTS (panics) right after it has been handed the k-th
+// delivered event.  The reporting goroutine survives (as a net/http or gRPC handler does: the server recovers),
+// reporter.mu is released by the deferred Unlock, and the next report must be judged against the status the
+// watchers have just been told — the model is unchanged by a fault.
+func vRunScriptF(script []vEv, ninst int, faults []bool) []vEv {
 	ids := make([]*componentstatus.InstanceID, ninst)
 	idx := map[*componentstatus.InstanceID]int{}
 	for i := range ids {
@@ -57,13 +63,19 @@ func vRunScript(script []vEv, ninst int) []vEv {
 	var got []vEv
 	rep := NewReporter(func(id *componentstatus.InstanceID, ev *componentstatus.Event) {
 		got = append(got, vEv{idx[id], int(ev.Status())})
+		if len(faults) > 0 && faults[(len(got)-1)%len(faults)] {
+			panic("verif: faulting status watcher")
+		}
 	}, func(error) {})
 	for _, s := range script {
-		if s.st == 8 {
-			rep.ReportOKIfStarting(ids[s.inst])
-		} else {
-			rep.ReportStatus(ids[s.inst], componentstatus.NewEvent(componentstatus.Status(s.st)))
-		}
+		func() {
+			defer func() { _ = recover() }()
+			if s.st == 8 {
+				rep.ReportOKIfStarting(ids[s.inst])
+			} else {
+				rep.ReportStatus(ids[s.inst], componentstatus.NewEvent(componentstatus.Status(s.st)))
+			}
+		}()
 	}
 	return got
 }
@@ -138,6 +150,13 @@ func TestVerifC11(t *testing.T) {
 		term := vPair("0", vPair(vEvList(script), vEvList(got)))
 		out.Case(len(got) > 0, term)
 		vOraclePath(out, term, got, len(chunk))
+		// the same script with a watcher that faults after EVERY delivery: exactly the same events must be delivered
+		// (direct oracle only; the model is the same function, so no second correspondence case)
+		gotF := vRunScriptF(script, len(chunk), []bool{true})
+		vOraclePath(out, term, gotF, len(chunk))
+		if fmt.Sprint(gotF) != fmt.Sprint(got) {
+			out.Oracle("watcher-fault-changes-events", term, fmt.Sprintf("with a faulting watcher the reporter delivered %v", gotF))
+		}
 	}
 
 	// (2) random long scripts, biased towards legal moves so deep states are reached
@@ -171,7 +190,17 @@ func TestVerifC11(t *testing.T) {
 			}
 			out.Stat(fmt.Sprintf("report_%d", st), 1)
 		}
-		got := vRunScript(script, ninst)
+		// 40 % of the scripts run with a watcher that faults after some of the deliveries
+		var faults []bool
+		if rng.Intn(100) < 40 {
+			faults = make([]bool, 7)
+			for k := range faults {
+				faults[k] = rng.Intn(3) == 0
+			}
+			faults[rng.Intn(7)] = true
+			out.Stat("scripts_with_faulting_watcher", 1)
+		}
+		got := vRunScriptF(script, ninst, faults)
 		term := vPair("0", vPair(vEvList(script), vEvList(got)))
 		out.Case(len(got) > 1, term)
 		out.Stat(fmt.Sprintf("events_per_script_%02d", len(got)/5*5), 1)
